@@ -44,7 +44,7 @@ for key in sorted(final):
      "C20-w8m2":"not caught by any check: the race is between the start of a restored PCAP-over-IP endpoint's reader and manager.New, and only exists once a packet arrives over a real connection; the registered C20 check has no socket actor (DESIGN §8.4, loopback actor) and does not restart the service",
      "C19-w8m2":"see check result",
     }
-    pre={}
+    pre={"C15-w8m2":"the second caller during an invalidation was added after reading the author's summary of this change and before its first run"}
     firstover={"C16-w8m1":"the patch did not apply in the first run (a fix: commit of this session had changed the lines it touches); it was ported (patch.orig.diff is the author's) and counts as missed at first"}
     if sid in firstover:
         m2["first_run"]["note"]=firstover[sid]
